@@ -12,6 +12,8 @@ PlansMeta3 == {[c1 |-> <<M("k1"), M("k1")>>, c2 |-> <<M("k1")>>, c3 |-> <<M("k1"
 \* routers (and one plain caller)
 PlansRoute == {[c1 |-> <<R("s1"), R("s1")>>, c2 |-> <<R("s1")>>],
                [c1 |-> <<R("s1"), R("s2")>>, c2 |-> <<R("s2"), R("s1")>>]}
+PlansRoute1 == {[c1 |-> <<R("s1"), R("s1")>>, c2 |-> <<R("s1")>>]}
+PlansRoute2 == {[c1 |-> <<R("s1"), R("s2")>>, c2 |-> <<R("s2"), R("s1")>>]}
 PlansRouteMeta == {[c1 |-> <<R("s1"), R("s1")>>, c2 |-> <<M("k1"), R("s1")>>]}
 PlansRoute3 == {[c1 |-> <<R("s1"), R("s3")>>, c2 |-> <<R("s3"), R("s1")>>, c3 |-> <<R("s1")>>]}
 PlansMix == PlansMeta2 \cup PlansRoute \cup PlansRouteMeta
